@@ -211,7 +211,9 @@ func firstLines(s string, n int) string {
 	return strings.Join(l, " | ")
 }
 
-func closure(expr string) string { return "(-> " + expr + ").()" }
+// closure wraps an expression so that it is compiled as a function of its own (parenthesised: a
+// leading `{` would otherwise open a block).
+func closure(expr string) string { return "(-> (" + expr + ")).()" }
 
 func run(c *core.Ctx) error {
 	b := Bounds{MaxLen: 2, MaxDigits: 2, MaxDepth: 2}
